@@ -173,6 +173,7 @@ def slots():
         ("HashMap.v", lambda x: ("hmap", FILL, x)),
         ("BTreeMap.k", lambda x: ("bmap", x, FILL2)),
         ("BTreeMap.v", lambda x: ("bmap", FILL, x)),
+        ("tuple1", lambda x: ("tuple", [x])),            # (T,) — a one-element tuple is a one-element array on the wire
         ("tuple2.0", lambda x: ("tuple", [x, FILL2])),
         ("tuple2.1", lambda x: ("tuple", [FILL, x])),
         ("tuple3.1", lambda x: ("tuple", [FILL, x, FILL2])),
@@ -241,7 +242,7 @@ def random_type(rnd, maxdepth, named=("Named",), allow_result=True, allow_ref=Tr
         return (ctor, sub(), sub())
     if ctor == "res":
         return ("res", sub(), P("String"))
-    return ("tuple", [sub() for _ in range(rnd.randint(2, 4))])
+    return ("tuple", [sub() for _ in range(rnd.choice([1, 2, 2, 3, 3, 4]))])
 
 
 def strip_refs(t):
@@ -358,7 +359,7 @@ def enum_src(name, variants, rename_all=None, derives="Serialize, Deserialize", 
     return "\n".join(out) + "\n\n"
 
 
-def command_src(name, params, ret=None, is_async=False, attr="#[tauri::command]", vis="pub ", body=None, pre_attrs=(), post_attrs=(), doc=None):
+def command_src(name, params, ret=None, is_async=False, attr="#[tauri::command]", vis="pub ", body=None, pre_attrs=(), post_attrs=(), doc=None, generics="", where=""):
     """params: list of (name, rust_type_string)"""
     out = []
     if doc:
@@ -368,10 +369,12 @@ def command_src(name, params, ret=None, is_async=False, attr="#[tauri::command]"
     out.append(attr)
     for a in post_attrs:
         out.append(a)
-    sig = "%s%sfn %s(%s)" % (vis, "async " if is_async else "", name, ", ".join("%s: %s" % p for p in params))
+    sig = "%s%sfn %s%s(%s)" % (vis, "async " if is_async else "", name, generics, ", ".join("%s: %s" % p for p in params))
     if ret:
         sig += " -> " + ret
-    out.append(sig + " {")
+    if where:
+        sig += "\nwhere\n    " + where + ","
+    out.append(sig + ("\n{" if where else " {"))
     out.append("    " + (body if body is not None else "todo!()"))
     out.append("}")
     return "\n".join(out) + "\n\n"
